@@ -340,7 +340,7 @@ static std::string state_key(const MV& m) { return mv_json(m); }   // json: memb
 
 // cimmode 0: the four operations without create_if_missing; 1: add/add_if_absent/replace with create_if_missing = true
 template <class Json>
-static void run_edit(int depth, int cimmode, int slice, int nslices) {
+static void run_edit(int depth, int cimmode, bool finalq, int slice, int nslices) {
     std::vector<std::vector<State<Json>>> level(depth + 1);
     std::unordered_set<std::string> seen;
     for (const char* sd : START_DOCS) {
@@ -391,9 +391,9 @@ static void run_edit(int depth, int cimmode, int slice, int nslices) {
                             if (seen.insert(key).second) {
                                 State<Json> ns; ns.doc = d; ns.mv = after; ns.sigprefix = st.sigprefix;
                                 ns.hist = st.hist + (st.hist.empty() ? "" : ";") + op_text(op, cim, 0, p.s, op == REM ? nullptr : &val);
-                                if (lvl + 1 == depth) {   // final level: looked up, not expanded (and not kept)
+                                if (lvl + 1 == depth) {   // final level: looked up (finalq), not expanded (and not kept)
                                     ++final_seen;
-                                    for (auto& q : g_ptrs) check_query(ns.doc, ns.mv, q, false, ns.sigprefix, ns.hist);
+                                    if (finalq) for (auto& q : g_ptrs) check_query(ns.doc, ns.mv, q, false, ns.sigprefix, ns.hist);
                                 } else level[lvl + 1].push_back(std::move(ns));
                             }
                         }
@@ -404,7 +404,7 @@ static void run_edit(int depth, int cimmode, int slice, int nslices) {
         maxdepth_states = std::max(maxdepth_states, fr.size());
     }
     out().count("states", expanded);
-    out().count("final_level_states_looked_up_not_expanded_per_slice_sum", final_seen);
+    out().count(finalq ? "final_level_states_looked_up_not_expanded_per_slice_sum" : "final_level_states_reached_not_expanded_per_slice_sum", final_seen);
     out().gauge(std::string("edit_frontier_") + TypeName<Json>::name() + (cimmode ? "_cim" : "") + "_depth" + std::to_string(depth - 1), (long long)level[depth - 1].size());
 }
 
@@ -509,8 +509,9 @@ int main(int argc, char** argv) {
     else if (mode == "edit") {
         int depth = (int)a.geti("depth", 2), cim = (int)a.geti("cim", 0);
         unsigned types = (unsigned)a.geti("types", 3);
-        if (types & 1) run_edit<json>(depth, cim, a.slice, a.nslices);
-        if (types & 2) run_edit<ojson>(depth, cim, a.slice, a.nslices);
+        bool finalq = a.geti("finalq", 1) != 0;
+        if (types & 1) run_edit<json>(depth, cim, finalq, a.slice, a.nslices);
+        if (types & 2) run_edit<ojson>(depth, cim, finalq, a.slice, a.nslices);
         out().count("transitions", g_c.transitions + g_c.queries);
         out().count("traces_validated", g_c.transitions + g_c.queries);
         out().count("edit_transitions", g_c.transitions);
@@ -524,7 +525,7 @@ int main(int argc, char** argv) {
         if (g_c.qcls[0]) g_classes.insert("lookup:absent");
         if (g_c.qcls[1]) g_classes.insert("lookup:found");
     } else if (mode == "flat") run_flat((int)a.geti("N", 5), a.slice, a.nslices);
-    else { fprintf(stderr, "usage: c14 syntax L= | edit depth= [cim=] [types=] | flat N=  slice nslices\n"); return 2; }
+    else { fprintf(stderr, "usage: c14 syntax L= | edit depth= [cim=] [finalq=] [types=] | flat N=  slice nslices\n"); return 2; }
     for (auto& c : g_classes) out().cls(c);
     out().count("evaluations", g_eval);
     out().count("nontrivial", g_nontrivial);
